@@ -296,7 +296,7 @@ static void node_edges(Node *n, sink_fn sink, void *u) {
         }
         case JANET_MEMORY_FUNCENV: {
             JanetFuncEnv *e = (JanetFuncEnv *) b;
-            if (e->offset > 0) ptr(e->as.fiber, "funcenv.fiber", sink, u);
+            if (e->offset > 0 && e->as.fiber) sink(u, &e->as.fiber->gc, 0, "funcenv.fiber");
             else if (e->offset == 0) vals(e->as.values, e->length, 0, "funcenv.value", sink, u);
             break;
         }
